@@ -287,7 +287,7 @@ func prepareCall(fr *frame, call *ssa.CallCommon) (fn value, args []value) {
 		// Interface method invocation.
 		recv := v.(iface)
 		if recv.t == nil {
-			if strings.Contains(call.Value.Type().String(), "github.com/prometheus/") {
+			if ts := call.Value.Type().String(); strings.Contains(ts, "github.com/prometheus/") || strings.Contains(ts, "go-ethereum/log.") {
 				// metrics objects are never constructed (constructors are no-ops)
 				return noopCall{call.Method.Type().(*types.Signature)}, nil
 			}
